@@ -73,12 +73,18 @@ pub mod verif_hooks {
     use crate::util::Address;
     use crate::MMAPPER;
 
+    static INIT: std::sync::Once = std::sync::Once::new();
+
     /// Reserve the side metadata address range with no VM specs (idempotent).
     pub fn initialize() {
-        use std::sync::Once;
-        static INIT: Once = Once::new();
+        initialize_with(&[]);
+    }
+
+    /// Reserve the side metadata address range, large enough for the given VM specs.
+    /// Only the first call in a process has an effect.
+    pub fn initialize_with(vm_specs: &[SideMetadataSpec]) {
         INIT.call_once(|| {
-            set_vm_side_metadata_specs(&[]);
+            set_vm_side_metadata_specs(vm_specs);
             initialize_side_metadata_base(Address::ZERO, HugePageSupport::No);
         });
     }
